@@ -50,7 +50,7 @@ pub open spec fn takes_db(c: Command) -> bool {
         Command::Server(_) => false,
         Command::Stream(_) => true,
         Command::Scan(_) => true,
-        Command::Database(_) => false,
+        Command::Database(_) => true,
         Command::ConsumerGroup(_) => true,
         Command::Persistence(_) => false,
         Command::Bit(_) => true,
@@ -108,10 +108,10 @@ impl UnifiedCommandExecutor {
     fn execute_scan(&mut self, db: usize, cmd: ScanCommand) -> (r: Result<RespFrame>)
         ensures final(self).ran@ == old(self).ran@.push((8int, db as int)), final(self).conn_context == old(self).conn_context,
     { unimplemented!() }
-    /// MODEL of execute_database: records that this category ran (it takes no database)
+    /// MODEL of execute_database (FLUSHDB, DBSIZE, KEYS act on ONE database): records the category and the database it was given
     #[verifier::external_body]
-    fn execute_database(&mut self, cmd: DatabaseCommand) -> (r: Result<RespFrame>)
-        ensures final(self).ran@ == old(self).ran@.push((9int, -1int)), final(self).conn_context == old(self).conn_context,
+    fn execute_database(&mut self, db: usize, cmd: DatabaseCommand) -> (r: Result<RespFrame>)
+        ensures final(self).ran@ == old(self).ran@.push((9int, db as int)), final(self).conn_context == old(self).conn_context,
     { unimplemented!() }
     /// MODEL of execute_consumer_group: records the category and the database it was given
     #[verifier::external_body]
@@ -142,6 +142,33 @@ impl UnifiedCommandExecutor {
             // C12 / C18: a command reached through redis.call runs in exactly one category function — its own — and on the database of
             // the connection context the caller attached (an explicit override first; 0 only when there is neither)
             final(self).ran@ == old(self).ran@.push((cat_of(cmd.command), if takes_db(cmd.command) { (match cmd.db_override { Some(d) => d as int, None => match old(self).conn_context { Some(c) => c.db_index as int, None => 0int } }) } else { -1int })),
+//@@ body
+//@@ end
+}
+
+/// MODEL of CommandParser::parse for the adapter below: some parsed command (the parsers themselves are group c12_parse)
+pub struct CommandParser;
+impl CommandParser {
+    #[verifier::external_body]
+    pub fn parse(frames: &Vec<RespFrame>) -> (r: Result<ParsedCommand>) { unimplemented!() }
+}
+/// `args.into_iter().map(|s| RespFrame::bulk_string(s)).collect()` (RXPR site): one bulk string per argument
+#[verifier::external_body]
+pub fn verif_args_to_frames(args: Vec<String>) -> (r: Vec<RespFrame>) ensures r@.len() == args@.len(), { unimplemented!() }
+/// MODEL of LuaCommandAdapter: the executor it wraps
+pub struct LuaCommandAdapter { pub executor: UnifiedCommandExecutor }
+impl LuaCommandAdapter {
+//@@ unit exec_lua_command fn src/storage/commands/executor.rs LuaCommandAdapter::execute_lua_command
+//@@   params drop "&self" add "&mut self"
+//@@   rewrite RXPR "args .into_iter() .map(|s| RespFrame::bulk_string(s)) .collect()" "verif_args_to_frames(args)"
+    fn execute_lua_command(&mut self, args: Vec<String>, db_index: usize) -> (r: Result<RespFrame>)
+        ensures
+            // C18 / C12: a command issued by a script runs on the database the script was started on (the database selected on the
+            // connection that sent EVAL / EVALSHA), whatever connection context the executor carries: either nothing ran (the command
+            // did not parse) or exactly one category function ran, and if it takes a database it was given db_index
+            final(self).executor.ran@ == old(self).executor.ran@
+                || (final(self).executor.ran@.len() == old(self).executor.ran@.len() + 1 && final(self).executor.ran@.take(old(self).executor.ran@.len() as int) =~= old(self).executor.ran@
+                    && (final(self).executor.ran@.last().1 == db_index as int || final(self).executor.ran@.last().1 == -1)),
 //@@ body
 //@@ end
 }
